@@ -14,7 +14,7 @@ if [ -n "${VERIF_REPO:-}" ] && [ "$VERIF_REPO" != /repo ]; then
   sed "s#=> /repo#=> $VERIF_REPO#" go.mod > "$T/go.mod"; cp go.sum "$T/go.sum"
   MODFLAG="-modfile=$T/go.mod"
   BIN=$T/verif-$ID
-  export VERIF_REPO
+  export VERIF_REPO VERIF_EVIDENCE_DIR="${VERIF_EVIDENCE_DIR:-$T/evidence}" VERIF_OUT_DIR="${VERIF_OUT_DIR:-/tmp/verif-mutant-out}"
   trap 'rm -rf "$T"' EXIT
 fi
 if ! go1.26 build $MODFLAG -tags verif -o "$BIN" ./cmd/verif 2>/verif/out/build-$ID.log; then
